@@ -226,6 +226,23 @@ pub fn spec(check: &str, tier: &str) -> Option<CheckSpec> {
             for (i, lp) in fam::limit_crash_programs().into_iter().enumerate() {
                 js.push(Job { id: format!("C06-limits-{}", i), check: "C06".into(), tier: tier.into(), program: lp, cfg: cfg.clone(), extra: serde_json::json!({"mode": "limits"}) });
             }
+            // a failure found in the very iteration that uses up the run budget still reaches the
+            // caller: programs that leak in every schedule (the leak is detected at the end of
+            // the iteration) and deadlock sentinels, with max_permutations 2 / 3 checked at every
+            // iteration
+            {
+                let mut failing: Vec<Program> = fam::leak_family().into_iter().filter(|p| p.name.ends_with("-leaked")).collect();
+                failing.extend(fam::held_lock_deadlocks().into_iter().take(2));
+                for (i, b) in failing.into_iter().enumerate() {
+                    // (max_permutations = k examined at every iteration lets k - 1 iterations run)
+                    for k in [2usize, 3] {
+                        let mut cb = cfg.clone();
+                        cb.max_permutations = Some(k);
+                        cb.checkpoint_interval = Some(1);
+                        js.push(Job { id: format!("C06-budget-{}-{}", i, k), check: "C06".into(), tier: tier.into(), program: b.clone(), cfg: cb, extra: serde_json::json!(null) });
+                    }
+                }
+            }
             for which in 0..crate::statics::CUSTOM_C06 as u64 {
                 let program = Program { name: format!("CUSTOM-drop-waits-{}", which), objs: Objs { atomics: vec![which, 6], ..Default::default() }, threads: vec![vec![]] };
                 js.push(Job { id: format!("C06-custom-{}", which), check: "C06".into(), tier: tier.into(), program, cfg: cfg.clone(), extra: serde_json::json!({"mode": "custom", "which": which}) });
